@@ -386,15 +386,13 @@ func (c *Cache) GnmiUpdate(n *pb.Notification) error {
 // a separate gnmi.Notification.
 func (t *Target) GnmiUpdate(n *pb.Notification) error {
 	updateTS := false
-	if u := n.GetUpdate(); len(u) > 0 {
-		if p := u[0].GetPath().GetElem(); len(p) > 0 && p[0].GetName() != metadata.Root {
-			// Record latest timestamp from the device, excluding all 'meta' paths.
-			defer func(ts int64) {
-				if updateTS {
-					t.checkTimestamp(T(ts))
-				}
-			}(n.GetTimestamp())
-		}
+	if len(n.GetUpdate()) > 0 && !isMetaNotification(n) {
+		// Record latest timestamp from the device, excluding all 'meta' paths.
+		defer func(ts int64) {
+			if updateTS {
+				t.checkTimestamp(T(ts))
+			}
+		}(n.GetTimestamp())
 	}
 	switch {
 	// Store atomic notifications as a single leaf in the tree.
